@@ -61,6 +61,7 @@ func vfC19GenReservedValue(t *rapid.T) *vfC19Val {
 
 // Signatures of listed findings (see /verif/findings.d/C19.json).
 const (
+	vfC19SigBlankObject  = "inject-into-whitespace-only-object-invalid-json"
 	vfC19SigRemovedNull  = "reserved-_removed-null-accepted"
 	vfC19SigBlipEscaped  = "blip-reserved-key-escaped-accepted"
 	vfC19SigImportPurged = "import-_purged-true-answers-200"
@@ -190,10 +191,34 @@ func TestVerif_C19_Reserved(t *testing.T) {
 			}
 			c.doc("GET after rejected write", c.raw("GET after rejected write", r.Body), base, false)
 		})
+		_ = knownImportPurged
 		rec.Case(fmt.Sprintf("%s existing=%v reserved %s=%s escaped-style=%v body=%s", path, existing, key, vfC19Canon(val), !st.Compact, vfC19Canon(body)), true, classes...)
 	})
+	if knownRemovedNull {
+		vfC19RegressRemovedNull(envs[0].vfC19Env)
+	}
+}
+
+// vfC19RegressRemovedNull: minimal reproduction of "reserved-_removed-null-accepted".
+func vfC19RegressRemovedNull(e *vfC19Env) {
+	r := e.do("PUT", "/c19-regress-removed-null", `{"_removed":null,"a":1}`, nil)
+	if r.Code == 201 {
+		g := e.do("GET", "/c19-regress-removed-null", "", nil)
+		kit.KnownFinding("C19", vfC19SigRemovedNull, fmt.Sprintf("PUT {\"_removed\":null,\"a\":1} answers 201 (validateNewBody documents rejection of a body containing _removed); GET then returns %s", strings.TrimSpace(vfC19Clip(string(g.Body)))))
+	}
 }
 
 func vfC19QueryKeys(docID string) string {
 	return url.QueryEscape(vfC19MustSer(&vfC19Val{Kind: 'a', Vals: []*vfC19Val{vfC19Str(docID)}}))
+}
+
+// vfC19BlankObjectShape: the body is an empty object, the path stores the client's bytes verbatim
+// (import, BLIP) and the style puts whitespace between the braces.
+func vfC19BlankObjectShape(path string, body *vfC19Val, st *vfC19Style) bool {
+	if len(body.Keys) != 0 || !(path == "import" || strings.HasPrefix(path, "blip")) {
+		return false
+	}
+	probe := *st
+	text, _ := vfC19Ser(body, &probe)
+	return text != "{}"
 }
